@@ -1,4 +1,402 @@
-/* Additional harness commands (ordering, equilibration, kernels, estimator, readers, bridge, screening).
- * Included by sluh.c; grows property by property. */
-static int extra_call(const char *fn, char *args) { (void)fn; (void)args; return 0; }
-static int extra_cmd(const char *cmd, char *rest) { (void)cmd; (void)rest; return 0; }
+/* Additional harness commands: component routines (equilibration, condition estimate, refinement, kernels,
+ * ordering, MC64, readers, Fortran bridge) and argument corruption for the screening checks.
+ * Included by sluh.c. */
+extern void getata(const int m, const int n, const int_t nz, const int_t *colptr, const int_t *rowind,
+                   int_t *atanz, int_t **ata_colptr, int_t **ata_rowind);
+extern void at_plus_a(const int n, const int_t nz, const int_t *colptr, const int_t *rowind,
+                      int_t *bnz, int_t **b_colptr, int_t **b_rowind);
+extern real_t FN(langs)(char *, SuperMatrix *);
+
+/* ------------------------------------------------------------------ vectors x, y (embedded in poisoned buffers) */
+#define VPAD 8
+typedef struct { val_t *raw; val_t *v; int len, inc; long rawlen; } vec_t;
+static vec_t VX, VY, VC;
+static void vec_set(vec_t *V, char *s)
+{
+    /* vec <len> <inc> values...  : logical length len, stride inc (> 0) */
+    int len = (int)rdint(&s), inc = (int)rdint(&s);
+    free(V->raw);
+    V->len = len; V->inc = inc; V->rawlen = (long)(len > 0 ? (len - 1) * inc + 1 : 0) + 2 * VPAD;
+    V->raw = malloc((V->rawlen + 1) * sizeof(val_t));
+    for (long i = 0; i < V->rawlen; i++) MKVAL(V->raw[i], -555.0, 555.0);
+    V->v = V->raw + VPAD;
+    for (int i = 0; i < len; i++) { double re = rdnum(&s), im = 0; if (NCOMP == 2) im = rdnum(&s); MKVAL(V->v[(long)i * inc], re, im); }
+}
+static uint64_t vec_outside_digest(const vec_t *V)
+{
+    /* digest of every element that is not one of the len logical entries */
+    uint64_t h = 99;
+    for (long i = 0; i < V->rawlen; i++) {
+        long k = i - VPAD;
+        int logical = k >= 0 && V->inc > 0 && k % V->inc == 0 && k / V->inc < V->len;
+        if (!logical) h = h * 1099511628211ULL ^ fnv(&V->raw[i], sizeof(val_t));
+    }
+    return h;
+}
+static void vec_json(const char *key, const vec_t *V)
+{
+    fprintf(OUT, ",\"%s\":[", key);
+    for (int i = 0; i < V->len; i++) { if (i) fputc(',', OUT); jval(V->v[(long)i * V->inc]); }
+    fputc(']', OUT);
+}
+
+/* ------------------------------------------------------------------ pending argument corruption (C18) */
+static char g_corrupt[8][32]; static int g_ncorrupt;
+static int has_corr(const char *name) { for (int i = 0; i < g_ncorrupt; i++) if (!strcmp(g_corrupt[i], name)) return 1; return 0; }
+typedef struct { SuperMatrix A, B, X, L, U; DNformat Bs, Xs; superlu_options_t opt; long lwork; char eq; real_t r0, c0; int usework; } saved_t;
+static void corr_matrix(SuperMatrix *M, const char *pfx, int issq)
+{
+    char nm[48];
+    snprintf(nm, sizeof nm, "%s.nonsquare", pfx); if (has_corr(nm)) M->ncol += 1;
+    snprintf(nm, sizeof nm, "%s.negdim", pfx); if (has_corr(nm)) { M->nrow = -1; if (issq) M->ncol = -1; }
+    snprintf(nm, sizeof nm, "%s.stype", pfx); if (has_corr(nm)) M->Stype = SLU_NCP;
+    snprintf(nm, sizeof nm, "%s.dtype", pfx); if (has_corr(nm)) M->Dtype = (DTYPE == SLU_D ? SLU_S : SLU_D);
+    snprintf(nm, sizeof nm, "%s.mtype", pfx); if (has_corr(nm)) M->Mtype = SLU_SYL;
+}
+static void save_args(ctx_t *c, saved_t *sv)
+{
+    sv->A = c->A; sv->B = c->B; sv->X = c->X; sv->L = c->L; sv->U = c->U; sv->opt = c->opt; sv->lwork = c->lwork; sv->eq = c->equed[0];
+    sv->usework = c->usework; sv->r0 = c->R ? c->R[0] : 0; sv->c0 = c->C ? c->C[0] : 0;
+    if (c->haveB) { sv->Bs = *(DNformat *)c->B.Store; sv->Xs = *(DNformat *)c->X.Store; }
+}
+/* corruptions of caller data (part of what must come back untouched) */
+static void apply_data_corruptions(ctx_t *c)
+{
+    if (has_corr("equed")) c->equed[0] = 'Q';
+    if (has_corr("R.nonpos")) c->R[0] = (real_t)0;
+    if (has_corr("C.nonpos")) c->C[0] = (real_t)-1;
+}
+/* corruptions of argument headers / option values (restored by the harness after the call) */
+static void apply_header_corruptions(ctx_t *c)
+{
+    if (!g_ncorrupt) return;
+    corr_matrix(&c->A, "A", 1);
+    if (c->haveB) {
+        corr_matrix(&c->B, "B", 0); corr_matrix(&c->X, "X", 0);
+        if (has_corr("B.ncolneg")) c->B.ncol = -1;
+        if (has_corr("X.ncolneg")) c->X.ncol = -1;
+        if (has_corr("B.lda")) ((DNformat *)c->B.Store)->lda = c->n - 1;
+        if (has_corr("X.lda")) ((DNformat *)c->X.Store)->lda = c->n - 1;
+        if (has_corr("X.ncolmismatch")) c->X.ncol = c->B.ncol + 1;
+    }
+    if (c->haveL) { corr_matrix(&c->L, "L", 1); corr_matrix(&c->U, "U", 1); }
+    if (has_corr("opt.Fact")) c->opt.Fact = (fact_t)7;
+    if (has_corr("opt.Trans")) c->opt.Trans = (trans_t)5;
+    if (has_corr("opt.Equil")) c->opt.Equil = (yes_no_t)3;
+    if (has_corr("lwork")) { c->lwork = -2; c->usework = 1; }
+}
+static void undo_header_corruptions(ctx_t *c, const saved_t *sv)
+{
+    c->A = sv->A; c->B = sv->B; c->X = sv->X; c->L = sv->L; c->U = sv->U; c->opt = sv->opt; c->lwork = sv->lwork; c->usework = sv->usework;
+    if (c->haveB) { *(DNformat *)c->B.Store = sv->Bs; *(DNformat *)c->X.Store = sv->Xs; }
+}
+static void undo_data_corruptions(ctx_t *c, const saved_t *sv)
+{
+    if (has_corr("equed")) c->equed[0] = sv->eq;
+    if (has_corr("R.nonpos")) c->R[0] = sv->r0;
+    if (has_corr("C.nonpos")) c->C[0] = sv->c0;
+}
+static void corr_json(void)
+{
+    fputs(",\"corrupt\":[", OUT);
+    for (int i = 0; i < g_ncorrupt; i++) fprintf(OUT, "%s\"%s\"", i ? "," : "", g_corrupt[i]);
+    fputc(']', OUT);
+}
+/* digest of everything the caller owns: must be identical before / after a rejected call */
+static uint64_t caller_digest(const ctx_t *c)
+{
+    uint64_t h = 17; int outer = c->fmt == 0 ? c->n : c->m;
+    if (c->haveA) { h = h * 31 + fnv(c->a, c->nnz * sizeof(val_t)); h = h * 31 + fnv(c->idx, c->nnz * sizeof(int_t)); h = h * 31 + fnv(c->ptr, (outer + 1) * sizeof(int_t)); }
+    if (c->haveB) { long tot = (long)c->ldb * c->nrhs; h = h * 31 + fnv(c->b, tot * sizeof(val_t)); h = h * 31 + fnv(c->x, tot * sizeof(val_t)); }
+    if (c->perm_c) {
+        h = h * 31 + fnv(c->perm_c, 64 * sizeof(int)); h = h * 31 + fnv(c->perm_r, 64 * sizeof(int)); h = h * 31 + fnv(c->etree, 64 * sizeof(int));
+        h = h * 31 + fnv(c->R, 64 * sizeof(real_t)); h = h * 31 + fnv(c->C, 64 * sizeof(real_t)); h = h * 31 + (uint64_t)c->equed[0];
+        h = h * 31 + fnv(c->ferr, 16 * sizeof(real_t)); h = h * 31 + fnv(c->berr, 16 * sizeof(real_t));
+    }
+    h = h * 31 + Ldig(c, 0); h = h * 31 + Ldig(c, 1); h = h * 31 + Udig(c, 0); h = h * 31 + Udig(c, 1);
+    if (VX.raw) h = h * 31 + fnv(VX.raw, VX.rawlen * sizeof(val_t));
+    if (VY.raw) h = h * 31 + fnv(VY.raw, VY.rawlen * sizeof(val_t));
+    return h;
+}
+
+/* one rejected-or-not call of a driver / computational routine with the pending corruptions: logs info, whether every
+ * caller object is byte-identical, and the ledger delta (C18) */
+static void call_screen(const char *fn, char *args)
+{
+    ctx_t *c = cx; saved_t sv; ensure_stat(c);
+    long live0; { slu_v_ledger_t l; slu_v_get(&l); live0 = l.live_blocks; }
+    save_args(c, &sv);
+    apply_data_corruptions(c);
+    uint64_t d0 = caller_digest(c);       /* every byte of caller data as passed to the routine */
+    apply_header_corruptions(c);
+    long long info = -9999; int iinfo = -9999; int_t tinfo = -9999;
+    void *work = c->usework ? (void *)c->work : NULL; int_t lwork = c->usework ? (int_t)c->lwork : 0;
+    real_t rpg = 0, rcond = 0; mem_usage_t mu; char norm[2] = "1";
+    if (!strcmp(fn, "gssv")) { FN(gssv)(&c->opt, &c->A, c->perm_c, c->perm_r, &c->L, &c->U, &c->B, &c->stat, &tinfo); info = tinfo; }
+    else if (!strcmp(fn, "gssvx")) { FN(gssvx)(&c->opt, &c->A, c->perm_c, c->perm_r, c->etree, c->equed, c->R, c->C, &c->L, &c->U, work, lwork, &c->B, &c->X, &rpg, &rcond, c->ferr, c->berr, &c->Glu, &mu, &c->stat, &tinfo); info = tinfo; }
+    else if (!strcmp(fn, "gsisx")) { FN(gsisx)(&c->opt, &c->A, c->perm_c, c->perm_r, c->etree, c->equed, c->R, c->C, &c->L, &c->U, work, lwork, &c->B, &c->X, &rpg, &rcond, &c->Glu, &mu, &c->stat, &tinfo); info = tinfo; }
+    else if (!strcmp(fn, "gstrs")) { int tr = has_corr("trans") ? 7 : atoi(args); FN(gstrs)((trans_t)tr, &c->L, &c->U, c->perm_c, c->perm_r, &c->B, &c->stat, &iinfo); info = iinfo; }
+    else if (!strcmp(fn, "gsrfs")) { int tr = has_corr("trans") ? 7 : atoi(args); FN(gsrfs)((trans_t)tr, &c->A, &c->L, &c->U, c->perm_c, c->perm_r, c->equed, c->R, c->C, &c->B, &c->X, c->ferr, c->berr, &c->stat, &iinfo); info = iinfo; }
+    else if (!strcmp(fn, "gscon")) { if (has_corr("norm")) norm[0] = 'X'; else if (args && strchr(args, 'I')) norm[0] = 'I'; FN(gscon)(norm, &c->L, &c->U, (real_t)1.0, &rcond, &c->stat, &iinfo); info = iinfo; }
+    else if (!strcmp(fn, "gsequ")) { real_t rc, cc, am; FN(gsequ)(&c->A, c->R, c->C, &rc, &cc, &am, &iinfo); info = iinfo; }
+    else if (!strcmp(fn, "trsv")) {
+        char u[2] = "L", t[2] = "N", d[2] = "U";
+        if (has_corr("uplo")) u[0] = 'X'; if (has_corr("trans")) t[0] = 'X'; if (has_corr("diag")) d[0] = 'X';
+        SPFN(trsv)(u, t, d, &c->L, &c->U, VX.v, &c->stat, &iinfo); info = iinfo;
+    }
+    undo_header_corruptions(c, &sv);
+    uint64_t d1 = caller_digest(c);
+    undo_data_corruptions(c, &sv);
+    slu_v_ledger_t l; slu_v_get(&l);
+    fprintf(OUT, "{\"e\":\"Ret\",\"id\":\"%s\",\"fn\":\"screen\",\"routine\":\"%s\",\"ty\":\"" TYCH "\",\"n\":%d,\"info\":%lld,\"unchanged\":%d,\"live_delta\":%ld,\"bad_frees\":%ld,\"fact\":%d",
+            g_id, fn, c->n, info, d0 == d1, l.live_blocks - live0, l.bad_frees, (int)c->opt.Fact);
+    corr_json();
+    fputs("}\n", OUT);
+    g_ncorrupt = 0;
+}
+
+/* ------------------------------------------------------------------ equilibration (C11) */
+static void call_equ(void)
+{
+    ctx_t *c = cx; snap_t s; take_snap(c, &s);
+    real_t rowcnd = (real_t)-77, colcnd = (real_t)-77, amax = (real_t)-77; int info = -9999;
+    c->ledger_mark = slu_v_mark();
+    for (int i = 0; i < 64; i++) c->R[i] = c->C[i] = (real_t)-77;
+    FN(gsequ)(&c->A, c->R, c->C, &rowcnd, &colcnd, &amax, &info);
+    char eq[2] = "?";
+    if (info == 0) FN(laqgs)(&c->A, c->R, c->C, rowcnd, colcnd, amax, eq);
+    common_head("equ", c);
+    fprintf(OUT, ",\"info\":%d,\"equed\":\"%c\"", info, (eq[0] >= 32 && eq[0] < 127 && eq[0] != '"' && eq[0] != '\\') ? eq[0] : '?');
+    snap_json(c, &s);
+    jreals("R", c->R, c->m); jreals("C", c->C, c->n);
+    fputs(",\"rowcnd\":", OUT); jnum(rowcnd); fputs(",\"colcnd\":", OUT); jnum(colcnd); fputs(",\"amax\":", OUT); jnum(amax);
+    ledger_json(c);
+    fputs("}\n", OUT);
+    free_snap(&s);
+}
+
+/* ------------------------------------------------------------------ condition estimate / growth on existing factors (C12) */
+static void call_gscon(char *args)
+{
+    ctx_t *c = cx; ensure_stat(c); char norm[2] = "1"; if (args && strchr(args, 'I')) norm[0] = 'I';
+    real_t anorm = FN(langs)(norm, &c->A), rcond = (real_t)-77; int info = -9999;
+    c->ledger_mark = slu_v_mark();
+    uint64_t dl = Ldig(c, 0), du = Udig(c, 0);
+    FN(gscon)(norm, &c->L, &c->U, anorm, &rcond, &c->stat, &info);
+    common_head("gscon", c);
+    fprintf(OUT, ",\"norm\":\"%s\",\"info\":%d,\"anorm\":", norm, info); jnum(anorm); fputs(",\"rcond\":", OUT); jnum(rcond);
+    fprintf(OUT, ",\"factors_same\":%d", dl == Ldig(c, 0) && du == Udig(c, 0));
+    A_json("A0", c); jints("perm_c", c->perm_c, c->n); jints("perm_r", c->perm_r, c->m);
+    LU_json(c); ledger_json(c);
+    fputs("}\n", OUT);
+}
+
+/* ------------------------------------------------------------------ kernels (C14) */
+static void call_trsv(char *args)
+{
+    ctx_t *c = cx; ensure_stat(c); char u[8] = "L", t[8] = "N", d[8] = "U";
+    sscanf(args, "%7s %7s %7s", u, t, d);
+    int info = -9999; c->ledger_mark = slu_v_mark();
+    uint64_t dl = Ldig(c, 0) ^ Ldig(c, 1), du = Udig(c, 0) ^ Udig(c, 1), dout = vec_outside_digest(&VX);
+    val_t *x0 = malloc((VX.len + 1) * sizeof(val_t)); for (int i = 0; i < VX.len; i++) x0[i] = VX.v[i];
+    SPFN(trsv)(u, t, d, &c->L, &c->U, VX.v, &c->stat, &info);
+    common_head("trsv", c);
+    fprintf(OUT, ",\"uplo\":\"%s\",\"trans\":\"%s\",\"diag\":\"%s\",\"info\":%d", u, t, d, info);
+    jvals("x0", x0, VX.len); vec_json("x1", &VX);
+    fprintf(OUT, ",\"factors_same\":%d,\"outside_same\":%d", dl == (Ldig(c, 0) ^ Ldig(c, 1)) && du == (Udig(c, 0) ^ Udig(c, 1)), dout == vec_outside_digest(&VX));
+    jints("perm_c", c->perm_c, c->n); jints("perm_r", c->perm_r, c->m);
+    LU_json(c); ledger_json(c);
+    fputs("}\n", OUT);
+    free(x0);
+}
+static void call_gemv(char *args)
+{
+    ctx_t *c = cx; char t[16] = "N"; double ar = 1, ai = 0, br = 0, bi = 0;
+    char *p = args; while (*p == ' ') p++; int k = 0; sscanf(p, "%15s%n", t, &k); p += k;
+    ar = rdnum(&p); if (NCOMP == 2) ai = rdnum(&p); br = rdnum(&p); if (NCOMP == 2) bi = rdnum(&p);
+    val_t alpha, beta; MKVAL(alpha, ar, ai); MKVAL(beta, br, bi);
+    c->ledger_mark = slu_v_mark();
+    uint64_t da = fnv(c->a, c->nnz * sizeof(val_t)), dxo = fnv(VX.raw, VX.rawlen * sizeof(val_t)), dyo = vec_outside_digest(&VY);
+    val_t *y0 = malloc((VY.len + 1) * sizeof(val_t)); for (int i = 0; i < VY.len; i++) y0[i] = VY.v[(long)i * VY.inc];
+    int ret = SPFN(gemv)(t, alpha, &c->A, VX.v, VX.inc, beta, VY.v, VY.inc);
+    common_head("gemv", c);
+    fprintf(OUT, ",\"trans\":\"%s\",\"ret\":%d,\"incx\":%d,\"incy\":%d,\"alpha\":", t, ret, VX.inc, VY.inc); jval(alpha); fputs(",\"beta\":", OUT); jval(beta);
+    A_json("A0", c); vec_json("x", &VX); jvals("y0", y0, VY.len); vec_json("y1", &VY);
+    fprintf(OUT, ",\"A_same\":%d,\"x_same\":%d,\"outside_same\":%d", da == fnv(c->a, c->nnz * sizeof(val_t)), dxo == fnv(VX.raw, VX.rawlen * sizeof(val_t)), dyo == vec_outside_digest(&VY));
+    ledger_json(c);
+    fputs("}\n", OUT);
+    free(y0);
+}
+/* C := alpha*op(A)*B + beta*C with dense B (k x ncolB, ldb) and C (m x ncolB, ldc) given through VX (as B) and VC */
+static void call_gemm(char *args)
+{
+    ctx_t *c = cx; char t[16] = "N"; int nb = 1, ldb = 1, ldc = 1; double ar = 1, ai = 0, br = 0, bi = 0;
+    char *p = args; while (*p == ' ') p++; int k = 0; sscanf(p, "%15s%n", t, &k); p += k;
+    nb = (int)rdint(&p); ldb = (int)rdint(&p); ldc = (int)rdint(&p);
+    ar = rdnum(&p); if (NCOMP == 2) ai = rdnum(&p); br = rdnum(&p); if (NCOMP == 2) bi = rdnum(&p);
+    val_t alpha, beta; MKVAL(alpha, ar, ai); MKVAL(beta, br, bi);
+    int notr = (t[0] == 'N' || t[0] == 'n');
+    int rowsC = notr ? c->m : c->n, rowsB = notr ? c->n : c->m;
+    c->ledger_mark = slu_v_mark();
+    uint64_t dxo = fnv(VX.raw, VX.rawlen * sizeof(val_t));
+    val_t *c0 = malloc((VC.len + 1) * sizeof(val_t)); memcpy(c0, VC.v, VC.len * sizeof(val_t));
+    int ret = SPFN(gemm)(t, "N", rowsC, nb, rowsB, alpha, &c->A, VX.v, ldb, beta, VC.v, ldc);
+    common_head("gemm", c);
+    fprintf(OUT, ",\"trans\":\"%s\",\"ret\":%d,\"nb\":%d,\"ldb\":%d,\"ldc\":%d,\"alpha\":", t, ret, nb, ldb, ldc); jval(alpha); fputs(",\"beta\":", OUT); jval(beta);
+    A_json("A0", c); vec_json("B", &VX); jvals("C0", c0, VC.len); vec_json("C1", &VC);
+    fprintf(OUT, ",\"B_same\":%d", dxo == fnv(VX.raw, VX.rawlen * sizeof(val_t)));
+    ledger_json(c);
+    fputs("}\n", OUT);
+    free(c0);
+}
+
+/* ------------------------------------------------------------------ ordering (C10) */
+static void call_order(char *args)
+{
+    ctx_t *c = cx; int method = atoi(args); SuperMatrix AC;
+    int *pc_in = malloc(64 * sizeof(int)); memcpy(pc_in, c->perm_c, 64 * sizeof(int));
+    int *et_in = malloc(64 * sizeof(int)); memcpy(et_in, c->etree, 64 * sizeof(int));
+    c->ledger_mark = slu_v_mark();
+    c->opt.ColPerm = (colperm_t)method;
+    if (method != MY_PERMC && c->opt.Fact == DOFACT) get_perm_c(method, &c->A, c->perm_c);
+    int *pc_mid = malloc(64 * sizeof(int)); memcpy(pc_mid, c->perm_c, 64 * sizeof(int));
+    sp_preorder(&c->opt, &c->A, c->perm_c, c->etree, &AC);
+    NCPformat *S = AC.Store;
+    common_head("order", c);
+    fprintf(OUT, ",\"method\":%d,\"sym\":%d,\"fact\":%d", method, (int)c->opt.SymmetricMode, (int)c->opt.Fact);
+    A_json("A0", c);
+    jints("perm_c_in", pc_in, c->n); jints("perm_c_mid", pc_mid, c->n); jints("perm_c", c->perm_c, c->n); jints("etree_in", et_in, c->n); jints("etree", c->etree, c->n);
+    jintts("colbeg", S->colbeg, c->n); jintts("colend", S->colend, c->n); jintts("colptr", c->ptr, c->n + 1);
+    fprintf(OUT, ",\"AC_shares_arrays\":%d,\"AC_nnz\":%lld,\"AC_dims\":[%d,%d]", S->nzval == (void *)c->a && S->rowind == c->idx, (long long)S->nnz, AC.nrow, AC.ncol);
+    Destroy_CompCol_Permuted(&AC);
+    ledger_json(c);
+    fputs("}\n", OUT);
+    free(pc_in); free(pc_mid); free(et_in);
+}
+static void call_struct(int which)
+{
+    ctx_t *c = cx; int_t bnz = -1, *bp = NULL, *bi = NULL;
+    c->ledger_mark = slu_v_mark();
+    if (which == 0) getata(c->m, c->n, c->nnz, c->ptr, c->idx, &bnz, &bp, &bi);
+    else at_plus_a(c->n, c->nnz, c->ptr, c->idx, &bnz, &bp, &bi);
+    common_head(which == 0 ? "ata" : "aplusat", c);
+    A_json("A0", c);
+    fprintf(OUT, ",\"bnz\":%lld", (long long)bnz);
+    if (bp) { jintts("b_colptr", bp, c->n + 1); jintts("b_rowind", bi, bnz > 0 ? bnz : 0); }
+    if (bp) SUPERLU_FREE(bp);
+    if (bi && bnz) SUPERLU_FREE(bi);
+    ledger_json(c);
+    fputs("}\n", OUT);
+}
+
+/* ------------------------------------------------------------------ MC64 (C17) */
+static void call_ldperm(char *args)
+{
+    ctx_t *c = cx; int job = atoi(args); if (job == 0) job = 5;
+    int n = c->n; int *perm = int32Malloc(n + 1); real_t *u = (real_t *)SUPERLU_MALLOC((n + 1) * sizeof(real_t)), *v = (real_t *)SUPERLU_MALLOC((n + 1) * sizeof(real_t));
+    for (int i = 0; i <= n; i++) { perm[i] = -7; u[i] = v[i] = (real_t)-77; }
+    c->ledger_mark = slu_v_mark();
+    uint64_t dp = fnv(c->ptr, (n + 1) * sizeof(int_t)), di = fnv(c->idx, c->nnz * sizeof(int_t)), da = fnv(c->a, c->nnz * sizeof(val_t));
+    int ret = FN(ldperm)(job, n, c->nnz, c->ptr, c->idx, c->a, perm, u, v);
+    common_head("ldperm", c);
+    fprintf(OUT, ",\"job\":%d,\"ret\":%d", job, ret);
+    A_json("A0", c); jints("perm", perm, n);
+    /* duals as multiples of ln 2 (on the power-of-two domain they are integers): nearest integer and the deviation in 2^-40 units */
+    fputs(",\"u_log2\":[", OUT); for (int i = 0; i < n; i++) { double q = (double)u[i] / 0.6931471805599453; fprintf(OUT, "%s%ld", i ? "," : "", isfinite(q) && fabs(q) < 1e6 ? lround(q) : 999999L); } fputc(']', OUT);
+    fputs(",\"v_log2\":[", OUT); for (int i = 0; i < n; i++) { double q = (double)v[i] / 0.6931471805599453; fprintf(OUT, "%s%ld", i ? "," : "", isfinite(q) && fabs(q) < 1e6 ? lround(q) : 999999L); } fputc(']', OUT);
+    double dev = 0; for (int i = 0; i < n; i++) { double q = (double)u[i] / 0.6931471805599453, w = (double)v[i] / 0.6931471805599453; if (isfinite(q)) dev = fmax(dev, fabs(q - round(q))); if (isfinite(w)) dev = fmax(dev, fabs(w - round(w))); }
+    fprintf(OUT, ",\"dual_dev_micro\":%ld", (long)fmin(dev * 1e6, 1e9));
+    jreals("u", u, n); jreals("v", v, n);
+    fprintf(OUT, ",\"arrays_same\":%d,\"values_same\":%d", dp == fnv(c->ptr, (n + 1) * sizeof(int_t)) && di == fnv(c->idx, c->nnz * sizeof(int_t)), da == fnv(c->a, c->nnz * sizeof(val_t)));
+    SUPERLU_FREE(perm); SUPERLU_FREE(u); SUPERLU_FREE(v);
+    ledger_json(c);
+    fputs("}\n", OUT);
+}
+
+/* ------------------------------------------------------------------ readers (C16) */
+static void call_read(char *args)
+{
+    char fmt[16], path[512]; if (sscanf(args, "%15s %511s", fmt, path) < 2) return;
+    int m = -1, n = -1; int_t nnz = -1; val_t *a = NULL; int_t *asub = NULL, *xa = NULL;
+    long mark = slu_v_mark();
+    FILE *fp = fopen(path, "r"); if (!fp) { fprintf(stderr, "sluh: cannot open %s\n", path); _exit(98); }
+    if (!strcmp(fmt, "hb")) FN(readhb)(fp, &m, &n, &nnz, &a, &asub, &xa);
+    else if (!strcmp(fmt, "mm")) FN(readMM)(fp, &m, &n, &nnz, &a, &asub, &xa);
+    else {
+        /* the remaining readers read stdin */
+        int saved = dup(0); dup2(fileno(fp), 0); clearerr(stdin);
+        if (!strcmp(fmt, "rb")) FN(readrb)(&m, &n, &nnz, &a, &asub, &xa);
+        else if (!strcmp(fmt, "triple")) FN(readtriple)(&m, &n, &nnz, &a, &asub, &xa);
+#ifdef T_D
+        else if (!strcmp(fmt, "triple_noheader")) dreadtriple_noheader(&m, &n, &nnz, &a, &asub, &xa);   /* EXAMPLE/dreadtriple_noheader.c */
+#endif
+        fflush(stdin); dup2(saved, 0); close(saved);
+    }
+    fclose(fp);
+    fprintf(OUT, "{\"e\":\"Ret\",\"id\":\"%s\",\"fn\":\"read\",\"ty\":\"" TYCH "\",\"fmt\":\"%s\",\"m\":%d,\"n\":%d,\"nnz\":%lld", g_id, fmt, m, n, (long long)nnz);
+    if (n >= 0 && n < 5000 && nnz >= 0 && nnz < 100000 && xa && asub && a) {
+        jintts("colptr", xa, n + 1);
+        long used = xa[n] >= 0 && xa[n] <= nnz ? xa[n] : 0;
+        jintts("rowind", asub, used); jvals("nzval", a, used);
+        fprintf(OUT, ",\"alloc\":{\"nzval\":%ld,\"rowind\":%ld,\"colptr\":%ld}", (long)(slu_v_block_size(a) / sizeof(val_t)), (long)(slu_v_block_size(asub) / sizeof(int_t)), (long)(slu_v_block_size(xa) / sizeof(int_t)));
+    }
+    own(a); own(asub); own(xa);
+    ctx_t tmp; memset(&tmp, 0, sizeof tmp); tmp.ledger_mark = mark; ledger_json(&tmp);
+    fputs("}\n", OUT);
+    if (a) SUPERLU_FREE(a); if (asub) SUPERLU_FREE(asub); if (xa) SUPERLU_FREE(xa);
+}
+
+/* ------------------------------------------------------------------ Fortran-callable bridge (C20) */
+#if defined(T_D) || defined(T_Z) || defined(T_S) || defined(T_C)
+typedef long long fptr;
+extern void CFORTRAN(int *iopt, int *n, int_t *nnz, int *nrhs, val_t *values, int_t *rowind, int_t *colptr, val_t *b, int *ldb, fptr *f_factors, int_t *info);
+static fptr g_handle[4];
+static void call_bridge(char *args)
+{
+    /* bridge <iopt> <slot>: uses the current context's matrix (1-based copy) and right-hand side */
+    ctx_t *c = cx; int iopt = 0, slot = 0; sscanf(args, "%d %d", &iopt, &slot); slot &= 3;
+    int n = c->n, nrhs = c->haveB ? c->nrhs : 1, ldb = c->haveB ? c->ldb : n; int_t nnz = c->nnz, info = -9999;
+    /* 1-based copies, as a Fortran caller would hold them */
+    int_t *ri = (int_t *)malloc((nnz + 1) * sizeof(int_t)), *cp = (int_t *)malloc((n + 2) * sizeof(int_t));
+    val_t *va = (val_t *)malloc((nnz + 1) * sizeof(val_t));
+    for (int_t i = 0; i < nnz; i++) { ri[i] = c->idx[i] + 1; va[i] = c->a[i]; }
+    for (int i = 0; i <= n; i++) cp[i] = c->ptr[i] + 1;
+    uint64_t d0 = fnv(ri, nnz * sizeof(int_t)) ^ fnv(cp, (n + 1) * sizeof(int_t)) ^ fnv(va, nnz * sizeof(val_t));
+    snap_t s; take_snap(c, &s);
+    long mark = slu_v_mark(); slu_v_ledger_t l0; slu_v_get(&l0);
+    CFORTRAN(&iopt, &n, &nnz, &nrhs, va, ri, cp, c->haveB ? c->b : NULL, &ldb, &g_handle[slot], &info);
+    slu_v_ledger_t l1; slu_v_get(&l1);
+    uint64_t d1 = fnv(ri, nnz * sizeof(int_t)) ^ fnv(cp, (n + 1) * sizeof(int_t)) ^ fnv(va, nnz * sizeof(val_t));
+    common_head("bridge", c);
+    fprintf(OUT, ",\"iopt\":%d,\"slot\":%d,\"info\":%lld,\"arrays_same\":%d,\"live_delta\":%ld,\"live\":%ld", iopt, slot, (long long)info, d0 == d1, l1.live_blocks - l0.live_blocks, l1.live_blocks);
+    snap_json(c, &s);
+    fprintf(OUT, ",\"bad_frees\":%ld,\"redzone\":%ld}\n", l1.bad_frees, l1.redzone_hits + slu_v_sweep());
+    free_snap(&s); free(ri); free(cp); free(va); (void)mark;
+}
+#endif
+
+static int extra_call(const char *fn, char *args)
+{
+    if (!strcmp(fn, "screen")) { char r[32]; int k = 0; if (sscanf(args, "%31s%n", r, &k) < 1) return 0; call_screen(r, args + k); return 1; }
+    if (!strcmp(fn, "equ")) { call_equ(); return 1; }
+    if (!strcmp(fn, "gscon")) { call_gscon(args); return 1; }
+    if (!strcmp(fn, "trsv")) { call_trsv(args); return 1; }
+    if (!strcmp(fn, "gemv")) { call_gemv(args); return 1; }
+    if (!strcmp(fn, "gemm")) { call_gemm(args); return 1; }
+    if (!strcmp(fn, "order")) { call_order(args); return 1; }
+    if (!strcmp(fn, "ata")) { call_struct(0); return 1; }
+    if (!strcmp(fn, "aplusat")) { call_struct(1); return 1; }
+    if (!strcmp(fn, "ldperm")) { call_ldperm(args); return 1; }
+    if (!strcmp(fn, "read")) { call_read(args); return 1; }
+    if (!strcmp(fn, "bridge")) { call_bridge(args); return 1; }
+    return 0;
+}
+static int extra_cmd(const char *cmd, char *rest)
+{
+    if (!strcmp(cmd, "corrupt")) { char nm[32]; if (sscanf(rest, "%31s", nm) == 1 && g_ncorrupt < 8) strcpy(g_corrupt[g_ncorrupt++], nm); return 1; }
+    if (!strcmp(cmd, "vecx")) { vec_set(&VX, rest); return 1; }
+    if (!strcmp(cmd, "vecy")) { vec_set(&VY, rest); return 1; }
+    if (!strcmp(cmd, "vecc")) { vec_set(&VC, rest); return 1; }
+    if (!strcmp(cmd, "seteq")) { char q[4]; if (sscanf(rest, "%3s", q) == 1) cx->equed[0] = q[0]; return 1; }
+    return 0;
+}
